@@ -297,6 +297,9 @@ func (t *tr) emit() string {
 	w("   Each definition is preceded by the Go source it was translated from (in the comments,\n")
 	w("   a double quote is shown as two single quotes and comment brackets are spaced out). *)\n")
 	w("From Coq Require Import List String ZArith Bool.\nFrom RQ Require Import Lib.AList Lib.GoLib.\nImport ListNotations.\n")
+	for _, r := range t.renamed {
+		w("(* field %s *)\n", r)
+	}
 	w("Local Open Scope Z_scope.\nLocal Open Scope string_scope.\n\nSection Gen.\n")
 	hdr := b.String() // records first (their zero values may add Section Variables), then the header in front
 	b.Reset()
